@@ -125,7 +125,9 @@ def outcome_matches(outcome, expected, exact=True, err_exact=False, reject_ok=Fa
     expected = list(expected)
     if outcome.kind != 'VALUE':
         if outcome.phase == 'evaluate':
-            return any(e is ANY or isinstance(e, Err) for e in expected)
+            # a failing evaluation stands for "some error value"; where the clause names the error value
+            # (err_exact and a kind given) only that value itself is accepted
+            return any(e is ANY or (isinstance(e, Err) and (not err_exact or e.kind is None)) for e in expected)
         return reject_ok and outcome.kind == 'LIB_EXC'
     got = norm(outcome.value)
     return any(val_eq(got, e, exact, err_exact) for e in expected)
